@@ -111,9 +111,57 @@ class Probe:
         self.replace_nodes, self.subst = replace_nodes, subst
         self.record_restores = False
 
+        # fix_line_lengths' frame: indentation_level -> [dedent] -> format_with_black -> [indent]
+        self.real_formatting = self.fixes.formatting
+        self.real_textwrap = self.fixes.textwrap
+        self.frames, self.cur_frame, self.record_frames = [], None, False
+
+        class FormattingProxy:
+            def __getattr__(self, name):
+                return getattr(probe.real_formatting, name)
+
+            def indentation_level(self, code):
+                n = probe.real_formatting.indentation_level(code)
+                probe.cur_frame = {"cur": code, "n": n} if probe.record_frames else None
+                return n
+
+            def format_with_black(self, code, **kw):
+                out = probe.real_formatting.format_with_black(code, **kw)
+                fr = probe.cur_frame
+                if fr is not None and "black" not in fr:
+                    fr["black"] = (code, out)
+                    if fr["n"] == 0:
+                        probe.frames.append(fr)
+                        probe.cur_frame = None
+                return out
+
+        class TextwrapProxy:
+            def __getattr__(self, name):
+                return getattr(probe.real_textwrap, name)
+
+            def dedent(self, text):
+                out = probe.real_textwrap.dedent(text)
+                fr = probe.cur_frame
+                if fr is not None and fr["cur"] == text and "black" not in fr:
+                    fr["ded"] = out
+                return out
+
+            def indent(self, text, prefix, *a, **k):
+                out = probe.real_textwrap.indent(text, prefix, *a, **k)
+                fr = probe.cur_frame
+                if fr is not None and "black" in fr and not a and not k:
+                    fr["ind"] = (text, prefix, out)
+                    probe.frames.append(fr)
+                    probe.cur_frame = None
+                return out
+
+        self.formatting_proxy, self.textwrap_proxy = FormattingProxy(), TextwrapProxy()
+
     def __enter__(self):
         self.proc._substitute_original_strings = self.subst
         self.proc._replace_nodes = self.replace_nodes
+        self.fixes.formatting = self.formatting_proxy
+        self.fixes.textwrap = self.textwrap_proxy
         self.main.rmspace = self.rm_proxy
         self.fixes.re = self.re_proxy
         self.fixes.fix_too_many_blank_lines = self.ftmbl
@@ -125,6 +173,8 @@ class Probe:
         self.fixes.fix_too_many_blank_lines = self.real_ftmbl
         self.proc._substitute_original_strings = self.real_subst
         self.proc._replace_nodes = self.real_replace_nodes
+        self.fixes.formatting = self.real_formatting
+        self.fixes.textwrap = self.real_textwrap
         return False
 
     def patterns(self):
@@ -741,6 +791,7 @@ def check(run: common.Run):
     notes = []
 
     files, meta = [], {}
+    disagreements_early = []
 
     def add_files(name, typ, okfun, items, info, shard):
         for p, k in write_cases(wd, name, typ, okfun, items, shard):
@@ -870,6 +921,9 @@ def check(run: common.Run):
             corpus.append(gen_module(srnd, dirty=(i % 3 != 0), odd_indent=(i % 2 == 0), cont=False))
         fam = restore_family()
         corpus += fam if not quick else fam[::2]
+        fam2 = semicolon_family()
+        corpus += fam2 if not quick else fam2[::2]
+        pr.record_frames = True
         n_e2e = 0
         post_seen, pitems, pinfo = set(), [], []
         pr.record_restores = True
@@ -914,6 +968,7 @@ def check(run: common.Run):
                                     "problem": "syntax tree changed beyond what the pre-pass does"
                                     if k_out is not None else "output does not parse"})
         pr.record_restores = False
+        pr.record_frames = False
         post_calls = len(pitems)
         add_files("post", "nat * string * string", "long_case_ok", pitems, pinfo, 60)
 
@@ -932,6 +987,33 @@ def check(run: common.Run):
             if f["replaced"] or len(ritems2) < (300 if quick else 3000):
                 ritems2.append(restore_case(f))
                 rinfo2.append(("restore", f["new"], f["out"], f["original"]))
+        # ---- 3c. the dedent / re-indent frame of fix_line_lengths: every statement range seen during the sweep
+        fseen, fitems, finfo = set(), [], []
+        for fr in pr.frames:
+            cur, n = fr["cur"], fr["n"]
+            if any(ch.isspace() and ch not in " \n" for ch in cur):
+                hist["frame:outside-domain"] += 1
+                continue
+            if n > 0 and ("ded" not in fr or "ind" not in fr or fr["ind"][1] != " " * n):
+                disagreements_early.append({"file": "frame", "case": ("fix_line_lengths frame has another shape",
+                                                                      cur, n, sorted(fr))})
+                continue
+            ded = fr.get("ded", "") if n > 0 else ""
+            new_, ind = (fr["ind"][0], fr["ind"][2]) if n > 0 else ("", "")
+            key = (cur, n, ded, new_, ind)
+            if key in fseen:
+                continue
+            fseen.add(key)
+            hist["frame:" + ("indented" if n > 0 else "level0" + ("-after-blanks" if cur[:1] == " " else ""))] += 1
+            if n == 0 and cur[:1] != " " and len(fitems) > (400 if quick else 4000):
+                continue
+
+            def ls(x):
+                return glist([enc2(l) for l in x.split("\n")])
+            fitems.append(f"({ls(cur)}, {n}, {ls(ded)}, {ls(new_)}, {ls(ind)})")
+            finfo.append(("frame", cur, ind if n > 0 else cur, n))
+        add_files("frame", "list string * nat * list string * list string * list string", "frame_case_ok",
+                  fitems, finfo, 150)
         add_files("restore", "bool * list (nat * nat * bool) * list (nat * nat * bool) * list nat",
                   "restore_case_ok", ritems2, rinfo2, 150)
 
@@ -994,7 +1076,7 @@ def check(run: common.Run):
     lap('reference defs')
     results = common.run_case_files(files + [wsfile])
     lap(f'coq case files ({len(files)})')
-    disagreements = []
+    disagreements = list(disagreements_early)
     for p in files:
         rc, out = results[p]
         idx = common.parse_nat_list(out) if rc == 0 else None
@@ -1050,7 +1132,7 @@ def check(run: common.Run):
                        "explanation": "a property theorem no longer checks"}, bool(failing))
 
     run.coverage.update(
-        evaluations=len(info) + len(rinfo2) + 7 * len(sinfo) + 3 * len(rinfo) + 7 * len(cinfo) + len(pinfo) + len(minfo) + len(iinfo) + len(dinfo) + n_e2e,
+        evaluations=len(info) + len(rinfo2) + len(finfo) + 7 * len(sinfo) + 3 * len(rinfo) + 7 * len(cinfo) + len(pinfo) + len(minfo) + len(iinfo) + len(dinfo) + n_e2e,
         distinct_nontrivial=len({(st, a) for (st, a, b) in info + sinfo + cinfo + pinfo if a != b})
         + len({x[1] for x in rinfo2 if x[1] != x[2]})
         + len({json.dumps(x[1]) for x in minfo if any(t != 0 for t, _ in x[1])})
@@ -1066,6 +1148,7 @@ def check(run: common.Run):
               "random scripts, real difflib scripts. import spacing: ALL ordered pairs of 7 statement kinds x "
               "1..4 newlines x nesting, seeded sequences. quote restoration: every real call of "
               "_substitute_original_strings during the sweep (incl. the f-string-fragment family) vs RestoreModel. "
+              "fix_line_lengths frame: every (range, indent, dedent, re-indent) seen during the sweep vs FrameModel. "
               "Non-trivial = the stage changed the text / the script "
               "has a non-Keep entry / the spacing changed; distinct by (stage, input)."),
         samples=[sinfo[1717][1], cinfo[5][1][:300] if len(cinfo) > 5 else "",
@@ -1080,7 +1163,8 @@ def check(run: common.Run):
                "oracle": "ast.dump equal (docstring whitespace and the u prefix ignored)",
                "post_pass_stage_calls_checked": post_calls},
         unmodelled=["black.format_str (line wrapping)", "compactify.format_code",
-                    "fixes.fix_line_lengths (statement ranges, elif handling)",
+                    "fixes.fix_line_lengths: statement ranges, elif handling, what black does between dedent and re-indent "
+                    "(the dedent/re-indent frame IS modelled: FrameModel.v)",
                     "processing._substitute_original_fstrings / _do_rewrite; the b/r/f prefix adjustment and the "
                     "Counter.most_common choice inside _substitute_original_strings (model = set of admissible "
                     "spellings, compared modulo prefix letters)",
@@ -1206,3 +1290,35 @@ def restore_case(f) -> str:
     def trip(x):
         return f"({x[0]}, {x[1]}, {gbool(x[2])})"
     return (f"({gbool(f['all_in'])}, {glist(f['origs'], trip)}, {glist(f['news'], trip)}, {glist(f['obs'])})")
+
+
+# ------------------------------------------------------------------------------------------------
+# fix_line_lengths' dedent / re-indent frame (fixes.py:345-358)
+
+
+def semicolon_family():
+    """Deterministic module family: a statement that follows another on the same line after `;` (its range
+    starts with blanks) and holds a multi-line literal whose inner lines are indented LESS than those blanks
+    (flush-left text), at module level and nested, plus nested statements whose literal lines are indented
+    less than the statement."""
+    res = []
+    bodies = ["\n== report ==\n", "usage:\nprog [options]\n\n  -h  help\n", "\n    line one\n\n  line two\n    ",
+              "a\n b\n  c\nd"]
+    k = 0
+    for body in bodies:
+        for pre in ("", "r", "f", "b", "Rb", "F"):
+            for gap in (" ", "   ", "      "):
+                for q in ('"""', "'''"):
+                    k += 1
+                    if (k % 3) and pre not in ("", "f"):
+                        continue
+                    b = body + ("{A%d}" % k if "f" in pre.lower() else "")
+                    lit = f"{pre}{q}{b}{q}"
+                    res.append(f"import sys\n\nW = sys.argv\nprint(W)\nA{k} = 3;{gap}S{k} = {lit}\nprint(A{k}, S{k})\n")
+                    if k % 4 == 0:
+                        res.append(f"import sys\n\nW = sys.argv\nprint(W)\nA{k} = 3;{gap}print(W, {lit});{gap}B{k} = {lit}\n"
+                                   f"print(A{k}, B{k})\n")
+                    if k % 5 == 0:
+                        res.append(f"import sys\n\nW = sys.argv\nprint(W)\n\n\ndef _f{k}(a):\n    b = a;{gap}c = {lit}\n"
+                                   f"    if a:\n        print(a);{gap}print({lit})\n    return [a, b, c]\n\n\nprint(_f{k}(W))\n")
+    return res
